@@ -192,6 +192,17 @@ func (c18) Run(t *testing.T, scenario any, job *Job, res *Result) {
 			res.Invalid = "no sync scenario"
 			return
 		}
+		if a := sc.Sync.Arr; a == "A1" || a == "A2" {
+			// the daemon greeting is written by both ends at once: a transport
+			// that cannot hold one greeting line (12 bytes) per direction is
+			// outside the domain (no socket has such a buffer; see DESIGN 15)
+			for _, c := range []int{sc.Sync.Tr.CapCS, sc.Sync.Tr.CapSC} {
+				if c >= 0 && c < 12 {
+					res.Invalid = "daemon arrangements need 12 bytes of buffer per direction for the simultaneous greeting"
+					return
+				}
+			}
+		}
 		if err := prepare(sc.Sync, lay); err != nil {
 			res.Invalid = err.Error()
 			return
